@@ -1889,6 +1889,10 @@ static int64_t eval2(Node *node, char ***label) {
       error_tok(node->rhs->tok, "division by zero in constant expression");
     if (node->ty->is_unsigned)
       return (uint64_t)eval(node->lhs) / rhs;
+    // INT64_MIN / -1 traps on the host; x / -1 is -x, computed modulo 2^64
+    // like the code we generate for it.
+    if (rhs == -1)
+      return -(uint64_t)eval(node->lhs);
     return eval(node->lhs) / rhs;
   }
   case ND_NEG:
@@ -1899,6 +1903,11 @@ static int64_t eval2(Node *node, char ***label) {
       error_tok(node->rhs->tok, "division by zero in constant expression");
     if (node->ty->is_unsigned)
       return (uint64_t)eval(node->lhs) % rhs;
+    // INT64_MIN % -1 traps on the host; x % -1 is 0 for every x.
+    if (rhs == -1) {
+      eval(node->lhs);
+      return 0;
+    }
     return eval(node->lhs) % rhs;
   }
   case ND_BITAND:
